@@ -22,7 +22,7 @@ RULE = (
     "auto_fork(None), accumulate a|b, set p, read c|d|e, revert, partial revert, clone(keep_last_fork), precompute_all} on two toy "
     "graphs x 2 initial states x 2 fork modes (L=4 all combos + L=5 on the main combos in quick; L=5 all + L=6 main in thorough). "
     "Engine B: Hypothesis op lists (<=40 ops; set/unset/put(indices, accumulate)/read sets/revert/partial revert/clone/"
-    "switch fork mode/precompute, idiom-biased) on random toy DAGs (3-10 nodes, expression grammar) and on the graphs of "
+    "switch fork mode/precompute, idiom-biased) on random toy DAGs (3-10 nodes, expression grammar; plus deep chain-like graphs of up to 18 nodes and WeightedTensor-valued variables) and on the graphs of "
     "logistic/linear/shared-speed/joint/mixture models with generated cohorts. Non-trivial = history with a read of a derived "
     "variable after a 2nd assignment of one of its ancestors and a revert/partial revert/clone/fork switch before that read; "
     "distinct by op list (engine A: distinct by construction)."
@@ -32,7 +32,7 @@ ASSUMPTIONS = [
     "Partial reverts are only issued under the documented precondition (last assignment on an individual-axis variable; no read of a variable without the individual axis since).",
     "After an assignment made with auto-fork off, `revert` may either raise LeaspyInputError or succeed; only the values read afterwards are judged.",
 ]
-REQUIRED_CLASSES = {"nontrivial": 0.02, "B:weighted-variable": 200, "B:partial-revert": 100, "B:model-graph": 200, "B:revert": 300, "B:clone": 300}
+REQUIRED_CLASSES = {"nontrivial": 0.02, "B:weighted-variable": 200, "B:deep-chain-graph": 300, "B:partial-revert": 100, "B:model-graph": 200, "B:revert": 300, "B:clone": 300}
 
 MOD = "vf.checks.c01"
 
@@ -197,11 +197,24 @@ def toy_graph_spec(draw):
     if draw(st.booleans()):
         indep.append(["h0", "hyper"])
     names = [x[0] for x in indep]
-    n_der = draw(st.integers(max(1, 3 - len(names)), 10 - len(names)))
+    deep = draw(st.sampled_from([False, False, True]))  # deep chain-like graphs: far descendants must be invalidated too
+    n_der = draw(st.integers(max(1, 3 - len(names)), 10 - len(names))) if not deep else draw(st.integers(5, 14))
     derived = []
     used = set()
     for j in range(n_der):
         op = draw(st.sampled_from(sorted(GRAMMAR)))
+        if deep and j > 0:
+            # each node depends on the previous derived node (value-preserving scale: no overflow along the chain)
+            op = draw(st.sampled_from(["neg", "neg", "sum"]))
+            prev = derived[-1][0]
+            parents = [prev] if op == "neg" else [prev, draw(st.sampled_from(names[: len(indep)]))]
+            used.update(parents)
+            nm = f"d{j}"
+            derived.append([nm, op, parents])
+            names.append(nm)
+            continue
+        if deep:
+            op = "affine"
         arity = GRAMMAR[op][0]
         arity = min(arity, len(names))
         if arity < GRAMMAR[op][0]:
@@ -228,7 +241,7 @@ def toy_graph_spec(draw):
         tgt = derived[-1][0]
         derived.append([f"d{k}", "sum", [u, tgt]])
         k += 1
-    return dict(n_ind=n_ind, indep=indep, derived=derived)
+    return dict(n_ind=n_ind, indep=indep, derived=derived, deep=deep)
 
 
 class Ctx:
@@ -336,6 +349,13 @@ def check_read(ctx, s, name):
         raise Violation("computable-read-refused", repr(e), f"{name} = {brief(exp)}")
     if not same(got, exp):
         raise Violation("stale-read", f"{name} = {brief(got)}", f"{name} = {brief(exp)} (definition on current independent values)")
+    # the tensor accessor must agree with the mapping access (it is what the samplers use)
+    from leaspy.utils.weighted_tensor import WeightedTensor
+
+    tv = s.get_tensor_value(name)
+    exp_t = exp.weighted_value if isinstance(exp, WeightedTensor) else exp
+    if isinstance(tv, WeightedTensor) or not same(tv, exp_t):
+        raise Violation("stale-read:get_tensor_value", f"{name} = {brief(tv)}", f"{name} = {brief(exp_t)}")
 
 
 def run_history(ctx: Ctx, ops, *, stats=None):
@@ -657,6 +677,8 @@ def body_toy(col: Collector, case):
     ctx = toy_ctx(specs, ind, shapes, init_full=case["init_full"], mode=case["mode"], n_ind=case["graph"]["n_ind"], label="toy", weighted=weighted)
     if weighted:
         col.cls("B:weighted-variable")
+    if case["graph"].get("deep"):
+        col.cls("B:deep-chain-graph")
     info = judge(col, ctx, case["ops"], case, "history-toy")
     _count(col, case, info, "B:toy-graph")
 
